@@ -142,7 +142,7 @@ TLC_JAR = "/opt/veriftools/tla/tla2tools.jar:/opt/veriftools/tla/CommunityModule
 
 
 def run_tlc(module, cfg, workers=None, simulate=None, depth=None, timeout=900, seed_=None, extra=None,
-            coverage=False, heap=None, deadlock=False, cfg_text=None):
+            coverage=False, heap=None, deadlock=False, cfg_text=None, files=None):
     """Run TLC on spec/<module>.tla with spec/<cfg>.  Returns dict(states, distinct, records{tag:[json]}, coverage, out).
 
     Records are lines printed by the spec with PrintT(<<"TAG", ToJson(x)>>)."""
@@ -154,6 +154,9 @@ def run_tlc(module, cfg, workers=None, simulate=None, depth=None, timeout=900, s
     if cfg_text is not None:
         with open(os.path.join(d, cfg), "w") as f:
             f.write(cfg_text)
+    for name, content in (files or {}).items():
+        with open(os.path.join(d, name), "w") as f:
+            f.write(content)
     if workers is None:
         workers = "auto"
     java = ["java", "-XX:+UseParallelGC"]
